@@ -300,7 +300,24 @@ pub fn gen_shutdown_server(tapes: &[Vec<u32>]) -> RawCase {
         script.push(hdr(id, "GET", true));
         script.push(PStep::Yield(t.below(5)));
     }
+    // variant: one more upload whose body the peer never finishes; once the shutdown handshake is (most likely) over
+    // it resets exactly that stream — the last one the endpoint accepted
+    let reset_last = t.chance(1, 3);
+    if reset_last {
+        let id = next_id;
+        next_id += 2;
+        let mut r = default_req(id);
+        r.resp_delay = 400; // the application waits for the request body first
+        reqs.push(r);
+        script.push(hdr(id, "POST", false));
+        script.push(PStep::Data { stream: id, len: 100, pad: None, end_stream: false, force: false });
+    }
     script.push(PStep::Barrier);
+    if reset_last {
+        script.push(PStep::Yield(60 + t.below(60)));
+        script.push(PStep::Barrier);
+        script.push(fr(Frame::Rst { stream: next_id - 2, code: *t.pick(&[8u32, 2, 0x8bad_f00d]) }));
+    }
     for id in (1..next_id).step_by(2) {
         script.push(PStep::WaitEnd(id));
     }
@@ -620,6 +637,7 @@ impl Engine for ShutdownEngine {
             }
         }
         check_c15(case, &rr, &an.tap, &mut out);
+        check_peer_resets_surface(case.h2_side, &rr.run.events, &an.tap, &mut out);
         out.note = format!("{} wire frames, end={:?}, script_done={}", an.tap.frames.len(), rr.run.end, rr.obs.script_done);
         out
     }
@@ -897,6 +915,44 @@ pub fn raw_c01(case: &RawCase, rr: &RawRun, tap: &Tap, out: &mut Outcome) {
         }
         if r.clean_end.is_some() && ended && !reset && r.bytes != sent {
             out.fail("C01", "fidelity/short-clean-end", "C01/clean-end-with-missing-bytes", format!("server, upload on stream {}: clean end after {} bytes, the peer sent {}", sid, r.bytes, sent));
+        }
+    }
+}
+
+/// C17 on a RAW endpoint: an RST_STREAM the peer sends for a stream whose body the application is still reading
+/// surfaces on that read with the peer's code.
+pub fn check_peer_resets_surface(e: Side, events: &[ApiEvent], tap: &Tap, out: &mut Outcome) {
+    if events.iter().any(|ev| ev.side == e && matches!(&ev.api, Api::ConnDone { result: Err(_) })) {
+        return;
+    }
+    for f in tap.frames.iter().filter(|f| f.from != e) {
+        let (sid, code, td) = match (&f.frame, f.t_d) {
+            (Ok(Frame::Rst { stream, code }), Some(td)) => (*stream, *code, td),
+            _ => continue,
+        };
+        // the application's view of that stream
+        let key = match events.iter().find(|ev| ev.side == e && matches!(&ev.api, Api::RecvHead { stream, eos: false, .. } if *stream == sid)) {
+            Some(ev) => ev.key,
+            None => continue,
+        };
+        let mine: Vec<&ApiEvent> = events.iter().filter(|ev| ev.side == e && ev.key == key).collect();
+        // still reading when the RST_STREAM arrived? (no end, no error, no drop before it; and the endpoint had not
+        // reset the stream itself)
+        let done_before = mine.iter().any(|ev| ev.step <= td && matches!(&ev.api, Api::RecvDataEnd | Api::RecvErr { .. } | Api::DroppedRecv | Api::SentReset { .. } | Api::DroppedSend));
+        let own_rst_before = tap.frames.iter().any(|g| g.from == e && g.t_w0 <= td && matches!(&g.frame, Ok(Frame::Rst { stream, .. }) if *stream == sid));
+        if done_before || own_rst_before {
+            continue;
+        }
+        out.label("peer-reset-on-stream-being-read");
+        let surfaced = mine.iter().any(|ev| matches!(&ev.api, Api::RecvErr { err, .. } if err.is_reset && err.reason == Some(code)));
+        if !surfaced {
+            let got: Vec<String> = mine.iter().filter_map(|ev| if let Api::RecvErr { op, err } = &ev.api { Some(format!("{}: {}", op, err.text)) } else { None }).collect();
+            out.fail(
+                "C17",
+                "error/peer-reset-lost",
+                "C17/peer-reset-never-reaches-the-reader",
+                format!("{}: the peer's RST_STREAM({}, code {:#x}) was delivered at step {} while the application was reading the body of that stream, but no read ever failed with that code (errors seen: {:?})", e.name(), sid, code, td, got),
+            );
         }
     }
 }
